@@ -8,7 +8,7 @@ THEOREMS = [
     "XcmModel.C08.C08_close_balanced", "XcmModel.C08.sysStep_inv", "XcmModel.C08.C08_histories_balanced",
     "XcmModel.UtlsProps.C08_utls_init_balanced", "XcmModel.UtlsProps.C08_utls_connect_balanced", "XcmModel.UtlsProps.C08_utls_connect_badaddr_balanced",
     "XcmModel.UtlsProps.C08_utls_server_balanced", "XcmModel.UtlsProps.C08_utls_accept_balanced", "XcmModel.UtlsProps.C08_utls_close_balanced",
-    "XcmModel.C08.C08_cleanup_sites_guarded", "XcmModel.C08.C08_cleanup_delegations_pass_owner",
+    "XcmModel.C08.C08_cleanup_sites_guarded", "XcmModel.C08.C08_cleanup_delegations_pass_owner", "XcmModel.C08.C08_cleanup_entries_pass_false",
 ]
 PROTOS = ["ux", "uxf", "tcp", "tls", "utls", "btcp", "btls"]
 
